@@ -17,7 +17,8 @@ THEOREMS = ["CKT.C08." + t for t in [
     "optimize_complete", "pass_ub", "passes_origin", "optimize_origin", "optimize_seed_independent", "unrestricted_seed_independent"]]
 RULE = ("as C07, with emphasis on search limits: gamma limits below, at and above the optimum, backjump limits 0..100 and none, several seeds "
         "per circuit; fixed families: greedy warm start with wire cuts vs cheaper gate-cut optimum, several quantum registers; thorough: every circuit on 3 qubits with up to 3 cx gates x width 1..2 x every permitted-cut combination against the "
-        "brute force over all 5^g plans; compared with the model: flag, overhead (exactly on integer-kappa circuits), cut circuit; distinct by payload")
+        "brute force over all 5^g plans; two full subcircuits with a pair across them hit by several gates (both-wires cut optimal); ten-qubit gate-cut-only "
+        "searches of about 13 000 backjumps without a backjump limit against the minimum over qubit partitions (oracle only); compared with the model: flag, overhead (exactly on integer-kappa circuits), cut circuit; distinct by payload")
 ASSUMPTIONS = ["the theorem `optimize_flag_sound` quantifies over the goal states of the model's search tree (per-gate choices that pass the action "
                "guards within the wire budget); that these are, cost-wise, all width-feasible plans of the specification (useless-cut argument) is "
                "validated by the brute force over all 5^g plans of the independent segment model, not proved",
@@ -40,6 +41,10 @@ def cases(rng, tier):
     # deterministic families (independent of the seed, oracle always run): unrestricted searches whose greedy warm start contains wire cuts while
     # the optimum lies between that answer's entangled-pair (LOCC) cost and its LO cost; circuits on several quantum registers
     for p in cutfind.family_bound_gap() + cutfind.family_registers():
+        yield ("find_cuts", p)
+    # two full subcircuits and a qubit pair across them hit by several gates (optimum: both wires cut in front of the first of them);
+    # unrestricted searches that need more backjumps than the default limit (oracle only)
+    for p in cutfind.family_full_pair() + cutfind.family_long_search():
         yield ("find_cuts", p)
     for _ in range(4 if tier == "quick" else 30):
         yield ("find_cuts", _wire_then_gate(rng))
@@ -80,7 +85,15 @@ def cases(rng, tier):
                                              "max_backjumps": None, "gate_lo": glo, "wire_lo": wlo, "width": W, "exact": True})
 
 
+_STANDIN = {"nq": 2, "instrs": [{"name": "cx", "qubits": [0, 1]}], "seed": 0, "max_gamma": 1024.0, "max_backjumps": None, "gate_lo": True,
+            "wire_lo": True, "width": 2, "exact": True}
+
+
 def model_line(kind, payload):
+    if payload.get("oracle_only"):
+        # searches too long for the driver line's random stream / fuel: a trivial line keeps the protocol in step, nothing is compared,
+        # the oracle (independent optimum) decides
+        return cutfind.model_line(dict(_STANDIN), nrnd=10)
     return cutfind.model_line(payload)
 
 
@@ -89,10 +102,14 @@ def run_real(kind, payload):
 
 
 def model_canon(kind, payload, out):
+    if payload.get("oracle_only"):
+        return None
     return cutfind.model_canon(out)
 
 
 def compare(kind, payload, real, model):
+    if payload.get("oracle_only"):
+        return None
     return cutfind.compare(payload, real, model)
 
 
@@ -121,6 +138,9 @@ def oracle(kind, payload):
         if why:
             return why
     best, plan = cutfind.brute_force(payload, gs)
+    if best == "skip":
+        # too many gates for the 5^g enumeration; with gate cuts only the optimum is a minimum over partitions of the qubits, whatever g
+        best, plan = cutfind.min_gate_cut_partition(payload, gs), "(the best partition of the qubits into blocks within the width limit)"
     if best == "skip" or best is None:
         return None
     opt = best * best
@@ -133,7 +153,7 @@ def oracle(kind, payload):
     if payload["max_backjumps"] is None and payload["max_gamma"] >= best:
         if not r["minimum_reached"]:
             return f"unrestricted search (max_gamma {payload['max_gamma']} >= optimum {best}) did not report the minimum as reached"
-        for sd in (1, 2, 12345):
+        for sd in payload.get("oracle_seeds", (1, 2, 12345)):
             q = dict(payload, seed=sd)
             rr = call_real(lambda p: cutfind.run_real(p), q, timeout=300)
             if "error" in rr or abs(rr["ok"]["overhead"] - r["overhead"]) > 1e-9 * max(1.0, r["overhead"]):
